@@ -41,6 +41,7 @@ EXPLANATION = (
     ' LAT-4: a bounds test written as all(0 <= c < n for c, n in zip(coords, shape)) is read as the per-coordinate tests it stands for. A routine written in a form a rule family has no model for (site list built another way, adjacency builder delegating to a generic helper) removes that class from that family with a note in the evidence; the other classes and families are still judged. '
     ' LAT-1 (idempotence): a dataclass field that tree_flatten carries into its own constructor slot is not recomputed from its own value in __post_init__ outside an `is None` guard (tree_unflatten runs __post_init__ again on every round trip). get_site_num may be written in Horner form (a field monomial times a linear form distributes). '
     ' Neighbour tuples written as a list copy of the position with one component replaced, and a site enumeration moved into a module-level helper called with self.shape, are read as the coordinate tuples / comprehension they stand for (LAT-3 / LAT-4 keep judging). '
+    ' LAT-1 (memoised values): a cached_property / lru_cache value of a lattice is not returned uncopied (shared mutable state outside the pytree). '
 )
 NOT_DECIDED = (
     "value-dependent graph facts (regularity / irreflexivity for particular side lengths, degree "
